@@ -24,6 +24,7 @@ every node's term at least where it was. -/
 theorem C06_term_monotone (s s' : PSys) (e : Event) (h : applyEvent s e = .ok s')
     (hnr : ∀ i, e ≠ .restart i) (j : Nat) : (s.nodes j).term ≤ (s'.nodes j).term := by
   cases e with
+  | read r => obtain ⟨rd, hs⟩ := read_frame h; subst hs; exact Nat.le_refl _
   | restart i => exact absurd rfl (hnr i)
   | bump i t =>
     simp only [applyEvent, ok] at h
